@@ -908,12 +908,19 @@ func poolConf(tier string) (p pool) {
 		p.dd = append(p.dd, replaceTwoSc(f, k, defaultFaults...))
 		p.dd = append(p.dd, autoLeaveTransferSc(f, k, int(BTick), 1, int(BDrop), 1, int(BDup), 1))
 	}
-	{
-		cl := ddScn("conf-lag", 3, ids(3), asyncF, scriptConfLag(), k, defaultFaults...)
+	for _, f := range []feat{asyncF, asyncPvF} {
+		cl := ddScn("conf-lag", 3, ids(3), f, scriptConfLag(), k, defaultFaults...)
 		cl.ConfMenu = []ConfSpec{{Changes: "l1"}, {Changes: "l2"}}
 		p.dd = append(p.dd, cl)
 	}
-	for _, f := range []feat{syncF, asyncF} {
+	{
+		// a lagging application with PreVote: node 2's apply thread is stalled while the removal of
+		// node 3 commits; node 2 is then asked to campaign (the pre-election path)
+		cl := ddScn("conf-lag-prevote", 3, ids(3), asyncPvF, seq(camp(1), prop(1), pauseApply(2, 1), conf(1, 0), prop(1), isolate(1), camp(2), prop(2), camp(2), pauseApply(2, 0), prop(2), camp(2), prop(2), heal(), prop(2)), k, defaultFaults...)
+		cl.ConfMenu = []ConfSpec{{Changes: "r3"}}
+		p.dd = append(p.dd, cl)
+	}
+	for _, f := range []feat{syncF, asyncF, pvF} {
 		p.dd = append(p.dd, confSc("mixed-batch", f, scriptMixedBatch(), k, defaultFaults...))
 		bt := confSc("batch-then-conf", f, scriptBatchThenConf(), k, defaultFaults...)
 		c := f.cfg()
@@ -1120,6 +1127,8 @@ func Jobs(prop, tier string) []*Job {
 	switch prop {
 	case "ALL":
 		add(poolAll(tier), allMonitors...)
+	case "APIALL": // development aid: every monitor over the API-order scenarios
+		add(poolAPI(tier), allMonitors...)
 	case "C01":
 		add(poolSafety(tier), prop)
 		add(poolSnapshot(tier), prop)
@@ -1250,6 +1259,23 @@ func Jobs(prop, tier string) []*Job {
 		add(poolFlow(tier), prop)
 		add(pool{dd: poolConf(tier).dd}, prop)
 		addNode()
+	}
+	// thorough tier: the API-order scenarios (every local operation once, in every order,
+	// interleaved with deliveries, from six roots) are explored under the property's own monitors too
+	if tier == "thorough" && len(jobs) > 0 {
+		switch prop {
+		case "C01", "C02", "C03", "C04", "C05", "C06", "C07", "C08", "C09", "C10", "C11", "C16", "C17", "C20":
+			var mons []string
+			for _, j := range jobs {
+				if j.Strategy != "nodex" {
+					mons = j.Mons
+					break
+				}
+			}
+			for _, sc := range poolAPI(tier).bfs {
+				jobs = append(jobs, job(prop, tier, "bfs", sc, 1, mons...))
+			}
+		}
 	}
 	for i, j := range jobs {
 		j.Index = i
